@@ -506,6 +506,7 @@ func runC02(c *Ctx) {
 	checkReaderDoneWakesWaiters(c)
 	checkWaitingDeadlineUnconditional(c)
 	checkErrorExitWaitsForReader(c)
+	checkClaimedReplyDelivered(c)
 	checkCtxCasePollsResult(c)
 	if ex := c.fn(relTransport, "TraditionalDnsConn", "exchange"); ex != nil {
 		// D38: a flag set for a query that was answered during its send closes the connection under the next query's reply
